@@ -344,8 +344,9 @@ theorem C15_remove_pbc_selection (b : Box) (hdet : b.det ≠ 0) (cur : List Vec)
     (hnd.filter _) (fun i hi => hlt i (List.mem_filter.mp hi).1)
   refine ⟨cur', h, hl, fun i hi => ho i ?_⟩
   intro hm
-  have := (List.mem_filter.mp hm).2
-  simp [hi] at this
+  have h2 : sel.getD i false = true := (List.mem_filter.mp hm).2
+  rw [hi] at h2
+  cases h2
 
 /-! ## Unit cell ↔ box vectors (partial: algebraic core only) -/
 
